@@ -97,6 +97,9 @@ func registerHarnessIntrinsics() {
 		},
 		"verifDependsOn":  hDependsOn,
 		"verifUF":         hUF,
+		"verifIteI64": func(e *Exec, a []Value, s *ssa.CallCommon) Value {
+			return e.tb.Ite(a[0].(*Term), a[1].(*Term), a[2].(*Term))
+		},
 		"verifBigHexDigits": func(e *Exec, a []Value, s *ssa.CallCommon) Value {
 			b, _ := e.opaque["lastbig"].(*bigSym)
 			if b == nil {
